@@ -568,6 +568,8 @@ type FuncContract struct {
 	Assumed    bool   // iface/extern: contract is an assumption
 	Kind       string // func | iface | extern
 	Asserts    []*AtAssert
+	ReplayHints []string // extra candidate strings for the bounded replay search
+	ReplayChecks []*Clause // executable oracle clauses used only by replay tests (never proof obligations)
 	OnlyCalls  []string // if set: every call with possible effects must be to one of these callees
 	LocalsLine string
 }
@@ -642,7 +644,7 @@ func ParseContractFile(path string) (*ContractFile, error) {
 	// First join continuation lines.  A //@ line starts a new clause if its
 	// first word is a keyword; otherwise it continues the previous clause.
 	keywords := map[string]bool{"func": true, "iface": true, "extern": true, "requires": true, "ensures": true, "loop": true,
-		"calls": true, "spec": true, "axiom": true, "lemma": true, "ghost": true, "modifies": true, "alias": true, "pure": true, "locals": true, "end": true, "at": true, "only": true}
+		"calls": true, "spec": true, "axiom": true, "lemma": true, "ghost": true, "modifies": true, "alias": true, "pure": true, "locals": true, "end": true, "at": true, "only": true, "replay": true}
 	var raws []rawClause
 	for i, line := range strings.Split(string(data), "\n") {
 		tl := strings.TrimSpace(line)
@@ -858,6 +860,28 @@ func ParseContractFile(path string) (*ContractFile, error) {
 			for _, f := range splitTopLevel(body[len("modifies"):]) {
 				if f != "nothing" {
 					cur.Modifies = append(cur.Modifies, f)
+				}
+			}
+		case strings.HasPrefix(body, "replay check"):
+			if cur == nil {
+				return nil, fmt.Errorf("%s:%d: clause outside func", path, rc.line)
+			}
+			cl, err := mk("replay-check", strings.TrimSpace(body[len("replay check"):]), rc.line)
+			if err != nil {
+				return nil, err
+			}
+			cur.ReplayChecks = append(cur.ReplayChecks, cl)
+		case strings.HasPrefix(body, "replay hint"):
+			if cur == nil {
+				return nil, fmt.Errorf("%s:%d: clause outside func", path, rc.line)
+			}
+			toks, err := lex(strings.TrimSpace(body[len("replay hint"):]))
+			if err != nil {
+				return nil, fmt.Errorf("%s:%d: %v", path, rc.line, err)
+			}
+			for _, t := range toks {
+				if t.kind == "str" {
+					cur.ReplayHints = append(cur.ReplayHints, t.val)
 				}
 			}
 		case strings.HasPrefix(body, "only calls"):
